@@ -17,10 +17,10 @@ package c25
 
 import (
 	"fmt"
-	"os"
 	"regexp"
 	"sort"
 	"strings"
+	"time"
 
 	"verifharness/kit/env"
 	"verifharness/kit/report"
@@ -49,9 +49,9 @@ var ProductKinds = []string{KMissing, KShort, KEmpty, KTruncated, KCorrupt, KBad
 var BodyKinds = []string{KMissing, KEmpty, KTruncated, KCorrupt, KBadSum, KBadPad}
 
 // MkDamage returns the representative damage of a kind for one shard; ok=false when the kind does
-// not exist for this geometry (a 1-byte shard cannot be cut "partially"). Positions of data/md5
-// flips derive from the seed; everything else is fixed, so the case list has the same shape for
-// every seed.
+// not exist for this geometry (a 1-byte shard cannot be cut "partially"). All parameters are fixed
+// functions of the geometry, so the product has the same shape for every seed (the seed drives the
+// blob content, one data-flip position per shard in the sweep, and the sampled mixed assignments).
 func MkDamage(seed int64, d, p, size, shard int, kind string) (Damage, bool) {
 	s := ShardLen(d, size)
 	dm := Damage{Shard: shard, Kind: kind}
@@ -71,11 +71,10 @@ func MkDamage(seed int64, d, p, size, shard int, kind string) (Damage, bool) {
 	case KGrown:
 		dm.Len = HeaderSize + s + 1
 	case KCorrupt:
-		rnd := env.Rand(seed, fmt.Sprintf("c25-dmg/%d/%d/%d/%d/%s", d, p, size, shard, kind))
-		dm.Off, dm.Bit = HeaderSize+rnd.Intn(s), rnd.Intn(8)
+		// a different byte column per shard whenever the shard has more than one byte
+		dm.Off, dm.Bit = HeaderSize+(shard*7+3)%s, (shard*3+1)%8
 	case KBadSum:
-		rnd := env.Rand(seed, fmt.Sprintf("c25-dmg/%d/%d/%d/%d/%s", d, p, size, shard, kind))
-		dm.Off, dm.Bit = 1+rnd.Intn(HeaderSize-1), rnd.Intn(8)
+		dm.Off, dm.Bit = 1+(shard*5+2)%(HeaderSize-1), (shard*3+2)%8
 	case KBadPad:
 		dm.Off, dm.Bit = 0, 0
 	default:
@@ -176,7 +175,8 @@ func (cs *CaseSet) Add(dmg []Damage) {
 
 // Product fills cs with: every subset of at most maxK shards x every assignment of kinds when that
 // is at most budget lists; otherwise every subset x every uniform assignment (all shards the same
-// kind) plus `samples` seed-chosen mixed assignments per subset. Returns whether the product was complete.
+// kind), and - when samples > 0 - every ordered pair of kinds on three fixed shard pairs plus `samples`
+// seed-chosen mixed assignments per subset. Returns whether the product was complete.
 func Product(cs *CaseSet, seed int64, c Config, size, maxK int, kinds []string, budget, samples int) bool {
 	n := c.D + c.P
 	var usable []string
@@ -225,6 +225,14 @@ func Product(cs *CaseSet, seed int64, c Config, size, maxK int, kinds []string, 
 			for _, kind := range usable {
 				cs.Add(mk(sub, func(int) string { return kind }))
 			}
+			// every ordered pair of kinds on three fixed shard pairs: first two, first+last, last data+first parity
+			if samples > 0 && k == 2 && ((sub[0] == 0 && (sub[1] == 1 || sub[1] == n-1)) || (sub[0] == c.D-1 && sub[1] == c.D)) {
+				for _, a := range usable {
+					for _, b := range usable {
+						cs.Add(mk(sub, func(i int) string { return []string{a, b}[i] }))
+					}
+				}
+			}
 			if k > 1 {
 				for s := 0; s < samples; s++ {
 					pick := make([]string, k)
@@ -250,8 +258,10 @@ func Sweep(cs *CaseSet, seed int64, c Config, size int, cutLens []int, allBody, 
 	for sh := 0; sh < c.D+c.P; sh++ {
 		cs.add1([]Damage{{Shard: sh, Kind: KMissing}})
 		lens := map[int]bool{HeaderSize: true, HeaderSize + 1: true, HeaderSize + s/2: true, full - 1: true}
-		for _, l := range cutLens {
-			lens[l] = true
+		if !lean || sh == 0 || sh == c.D || sh == c.D+c.P-1 { // quick: first data, first parity, last shard
+			for _, l := range cutLens {
+				lens[l] = true
+			}
 		}
 		if allBody {
 			for l := HeaderSize; l < full; l++ {
@@ -303,7 +313,7 @@ func Sweep(cs *CaseSet, seed int64, c Config, size int, cutLens []int, allBody, 
 func SizeList(d int, thorough bool) []int {
 	var raw []int
 	if thorough {
-		raw = []int{1, d - 1, d, d + 1, 2*d - 1, 2 * d, 2*d + 1, 3*d + 2, 255, 256, 4095, 4096, 4097, 65535, 65536, 65537}
+		raw = []int{1, d - 1, d, d + 1, 2*d - 1, 2 * d, 2*d + 1, 255, 4096, 4097, 65535, 65536, 65537}
 	} else {
 		raw = []int{1, d + 1, 2 * d, 65537}
 	}
@@ -319,7 +329,8 @@ func SizeList(d int, thorough bool) []int {
 	return out
 }
 
-func sizeClass(d, size int) string {
+// SizeClass: multiple of d or not; 1-byte shards; big.
+func SizeClass(d, size int) string {
 	c := "nonmult"
 	if size%d == 0 {
 		c = "mult"
@@ -429,10 +440,14 @@ var assumptions = []string{
 
 // Run is the C25 check.
 func Run(r *report.Run) int {
+	t0 := time.Now()
 	cases, complete := genCases(r)
 	r.Count("cases_planned", int64(len(cases)))
-	results := Exec(r, "c25-batch", cases, 200)
+	t1 := time.Now()
+	results := Exec(r, "c25-batch", cases, r.Pick(60, 150))
+	t2 := time.Now()
 	judge(r, cases, results)
+	r.Set("phase_seconds", map[string]float64{"generate": t1.Sub(t0).Seconds(), "execute": t2.Sub(t1).Seconds(), "judge": time.Since(t2).Seconds()})
 	r.Set("product_complete_for_every_group", complete)
 	// exhaustive stays false: bit positions and truncation lengths are representatives, and large groups are sampled.
 	return r.Finish(rule, assumptions, r.Pick(150, 300))
@@ -456,27 +471,28 @@ func allCutLens() []int {
 func genCases(r *report.Run) ([]Case, bool) {
 	var cases []Case
 	complete := true
-	budget := r.Pick(150, 10000)
+	budget := r.Pick(100, 6000)
 	samples := r.Pick(1, 6)
 	lean := !r.Thorough()
-	cutMixed := map[Config]bool{{1, 1}: true, {2, 1}: true} // full product including "short"
+	cutMixed := map[Config]bool{{2, 1}: true} // full product including "short"
 	if r.Thorough() {
-		cutMixed[Config{1, 2}], cutMixed[Config{3, 1}], cutMixed[Config{2, 2}] = true, true, true
+		cutMixed[Config{1, 1}], cutMixed[Config{1, 2}], cutMixed[Config{3, 1}], cutMixed[Config{2, 2}] = true, true, true, true
 	}
 	for _, cfg := range AllConfigs() {
 		n := cfg.D + cfg.P
 		sizes := SizeList(cfg.D, r.Thorough())
-		// mixed-kind product sizes: one non-multiple of d (quick); plus 1 byte and a multiple (thorough)
+		// mixed-kind product sizes: one non-multiple of d (quick); plus 1 byte (thorough)
 		prod := map[int]bool{cfg.D + 1: true}
 		cutSizes := map[int][]int{cfg.D + 1: {0, 9}}
 		if r.Thorough() {
-			prod[1], prod[2*cfg.D] = true, true
+			prod[1] = true
 			cutSizes[cfg.D+1] = allCutLens()
 			cutSizes[1], cutSizes[4097], cutSizes[65537] = []int{0, 1, 16}, []int{0, 9}, []int{0, 16}
 		} else if cfg == (Config{2, 1}) {
 			cutSizes[cfg.D+1] = allCutLens()
 		}
 		for _, size := range sizes {
+			var prev *CaseSet
 			for _, repair := range []bool{false, true} {
 				cs := NewCaseSet()
 				if !repair {
@@ -495,36 +511,51 @@ func genCases(r *report.Run) ([]Case, bool) {
 						}
 					case lean && size == 1:
 						// quick: 1-byte shards get the single-shard sweep only
+					case lean:
+						Product(cs, r.Seed, cfg, size, cfg.P+1, []string{KMissing, KTruncated, KCorrupt, KBadPad}, 0, 0)
 					default:
 						Product(cs, r.Seed, cfg, size, cfg.P+1, BodyKinds, 0, 0) // every subset x uniform kinds
 					}
 				} else {
-					// the same reads with auto-repair on: single-shard sweep + uniform subsets (+ sampled mixes in thorough)
+					// the same reads with auto-repair on: an evenly strided subset of the repair-off list of
+					// this size (header cuts left out, except one), so every one of them has a repair-off twin
 					if size != cfg.D+1 && !(r.Thorough() && size == 4097) {
 						continue
 					}
-					Sweep(cs, r.Seed, cfg, size, nil, false, lean)
-					cs.add1([]Damage{{Shard: 0, Kind: KZero, Len: 0}})
-					cs.add1([]Damage{{Shard: n - 1, Kind: KShort, Len: 9}})
-					if lean {
-						Product(cs, r.Seed, cfg, size, cfg.P+1, []string{KMissing, KTruncated, KCorrupt}, 0, 0)
-					} else {
-						Product(cs, r.Seed, cfg, size, cfg.P+1, BodyKinds, 1500, 2)
+					var pool [][]Damage
+					for _, dmg := range prev.List {
+						cut := false
+						for _, dm := range dmg {
+							cut = cut || dm.Kind == KZero || dm.Kind == KShort
+						}
+						if !cut || (len(dmg) == 1 && dmg[0].Shard == n-1 && dmg[0].Len == 9) {
+							pool = append(pool, dmg)
+						}
+					}
+					limit := r.Pick(100, 1200)
+					stride := (len(pool) + limit - 1) / limit
+					for i := 0; i < len(pool); i += max(stride, 1) {
+						cs.add1(pool[i])
 					}
 				}
+				prev = cs
 				cases = append(cases, Case{Fam: "read", D: cfg.D, P: cfg.P, Size: size, Repair: repair}) // undamaged baseline
 				for _, dmg := range cs.List {
 					cases = append(cases, Case{Fam: "read", D: cfg.D, P: cfg.P, Size: size, Repair: repair, Dmg: dmg})
 				}
 			}
 		}
-		// write failures: every subset of the d+p shard folders, two failure modes, two sizes
+		// write failures: every subset of the d+p shard folders x {WriteFile fails, MkdirAll fails} x two sizes.
+		// quick: the MkdirAll mode only at the boundary (p and p+1 failures), the 4097-byte blob only for d+p <= 4.
 		for _, size := range []int{cfg.D + 1, 4097} {
 			for _, mode := range []string{"writefile", "mkdir"} {
-				if lean && mode == "mkdir" && size == 4097 {
+				if lean && size == 4097 && (mode == "mkdir" || n > 4) {
 					continue
 				}
 				for k := 0; k <= n; k++ {
+					if lean && mode == "mkdir" && k != cfg.P && k != cfg.P+1 {
+						continue
+					}
 					for _, sub := range Subsets(n, k) {
 						cases = append(cases, Case{Fam: "write", D: cfg.D, P: cfg.P, Size: size, Fail: sub, Mode: mode})
 					}
@@ -533,15 +564,6 @@ func genCases(r *report.Run) ([]Case, bool) {
 		}
 		// zero-length blob: asserted on only if Add accepts it
 		cases = append(cases, Case{Fam: "write", D: cfg.D, P: cfg.P, Size: 0, Mode: "writefile"})
-	}
-	if only := os.Getenv("C25_DEBUG_ONLY"); only != "" { // TODO remove: debugging filter
-		var f []Case
-		for _, c := range cases {
-			if (Config{c.D, c.P}).String() == only {
-				f = append(f, c)
-			}
-		}
-		cases = f
 	}
 	return cases, complete
 }
@@ -576,7 +598,7 @@ func judge(r *report.Run, cases []Case, results []Result) {
 				rel = "undamaged"
 			}
 			outcomes["read:"+rel+":"+outcomeClass(res.Outcome)]++
-			r.Eval(fmt.Sprintf("read:%s:%s:repair=%v:%s:%s", cfg, sizeClass(c.D, c.Size), c.Repair, rel, KindSet(c.Dmg)), k > 0)
+			r.Eval(fmt.Sprintf("read:%s:%s:repair=%v:%s:%s", cfg, SizeClass(c.D, c.Size), c.Repair, rel, KindSet(c.Dmg)), k > 0)
 			if samples < 3 && k == 2 {
 				samples++
 				r.Sample(map[string]any{"case": c, "result": res})
@@ -586,7 +608,7 @@ func judge(r *report.Run, cases []Case, results []Result) {
 				continue
 			}
 			v := &verdict{c: c, res: res, class: outcomeClass(res.Outcome)}
-			bad[key{groupKey(c), DmgKey(c.Dmg)}] = v
+			bad[key{GroupKey(c), DmgKey(c.Dmg)}] = v
 			verdicts = append(verdicts, v)
 		case "write":
 			f := len(c.Fail)
@@ -606,7 +628,7 @@ func judge(r *report.Run, cases []Case, results []Result) {
 				r.Inconclusive(fmt.Sprintf("write case: %d injected failures returned, %d planned", res.Injected, f))
 				continue
 			}
-			r.Eval(fmt.Sprintf("write:%s:%s:%s:fail=%d", cfg, sizeClass(c.D, c.Size), c.Mode, f), f > 0)
+			r.Eval(fmt.Sprintf("write:%s:%s:%s:fail=%d", cfg, SizeClass(c.D, c.Size), c.Mode, f), f > 0)
 			if samples < 5 && f == c.P+1 {
 				samples++
 				r.Sample(map[string]any{"case": c, "result": res})
@@ -638,38 +660,45 @@ func judge(r *report.Run, cases []Case, results []Result) {
 			}
 		}
 	}
-	// Name each violating read by its smallest violating sub-damage with the same outcome and message class.
+	// Name each violating read by its smallest violating sub-damage with the same outcome and message
+	// class. Reads with repair on are a subset of the reads with repair off: when the twin fails the
+	// same way it is the same defect and gets the same signature; otherwise the signature says "/repair-on".
+	sort.SliceStable(verdicts, func(i, j int) bool { return !verdicts[i].c.Repair && verdicts[j].c.Repair })
 	for _, v := range verdicts {
-		v.culprit = v.c.Dmg
-		n := len(v.c.Dmg)
-		best := -1
-		for mask := 1; mask < (1<<n)-1; mask++ {
-			var sub []Damage
-			for i := 0; i < n; i++ {
-				if mask&(1<<i) != 0 {
-					sub = append(sub, v.c.Dmg[i])
-				}
-			}
-			if best >= 0 && len(sub) >= best {
-				continue
-			}
-			if w, ok := bad[key{groupKey(v.c), DmgKey(sub)}]; ok && w.class == v.class && MsgClass(w.res.Msg) == MsgClass(v.res.Msg) {
-				v.culprit, best = sub, len(sub)
-			}
-		}
-		suffix := ""
-		if len(v.culprit) > v.c.P {
-			suffix = "/over"
-		}
 		if v.c.Repair {
-			// same damage with repair off fails the same way => same defect, same signature
 			twin := v.c
 			twin.Repair = false
-			if w, ok := bad[key{groupKey(twin), DmgKey(v.c.Dmg)}]; !ok || w.class != v.class {
-				suffix += "/repair-on"
+			if w, ok := bad[key{GroupKey(twin), DmgKey(v.c.Dmg)}]; ok && w.class == v.class {
+				v.culprit, v.sig = w.culprit, w.sig
 			}
 		}
-		v.sig = fmt.Sprintf("C25:%s:%s%s:%s", Config{v.c.D, v.c.P}, KindSet(v.culprit), suffix, v.class)
+		if v.sig == "" {
+			v.culprit = v.c.Dmg
+			n := len(v.c.Dmg)
+			best := -1
+			for mask := 1; mask < (1<<n)-1; mask++ {
+				var sub []Damage
+				for i := 0; i < n; i++ {
+					if mask&(1<<i) != 0 {
+						sub = append(sub, v.c.Dmg[i])
+					}
+				}
+				if best >= 0 && len(sub) >= best {
+					continue
+				}
+				if w, ok := bad[key{GroupKey(v.c), DmgKey(sub)}]; ok && w.class == v.class && MsgClass(w.res.Msg) == MsgClass(v.res.Msg) {
+					v.culprit, best = sub, len(sub)
+				}
+			}
+			suffix := ""
+			if len(v.culprit) > v.c.P {
+				suffix = "/over"
+			}
+			if v.c.Repair {
+				suffix += "/repair-on"
+			}
+			v.sig = fmt.Sprintf("C25:%s:%s%s:%s", Config{v.c.D, v.c.P}, KindSet(v.culprit), suffix, v.class)
+		}
 		exp := "exactly the stored bytes (damaged shards <= p)"
 		if len(v.c.Dmg) > v.c.P {
 			exp = "an error or the stored bytes (damaged shards > p), never other bytes, never a crash"
